@@ -8,7 +8,7 @@
     needs a symbolic link on the requested path. *)
 From Coq Require Import List NArith Bool.
 From Coq Require Import String.
-From MM Require Import Model.Fs Model.Untar Model.PathPolicy Proofs.FsProofs Proofs.UntarSafety Proofs.PathPolicyProofs.
+From MM Require Import Model.Fs Model.Untar Model.PathPolicy Proofs.FsProofs Proofs.UntarSafety Proofs.PathPolicyProofs Generated.C26.
 Import ListNotations.
 Local Open Scope string_scope.
 Local Open Scope list_scope.
@@ -81,3 +81,17 @@ Example C26_nonvacuous :
    o_code (exec ["/allowed"] fs r) = 0%N /\ o_payload (exec ["/allowed"] fs r) = "DEEP" /\
    o_touched (exec ["/allowed"] fs r) = [["allowed"; "sub"; "deep.txt"]; ["allowed"; "sub"; "deep.txt"]]).
 Proof. exact (conj c26_ex_hypotheses c26_nonvacuous_proof). Qed.
+
+(** Which entry points apply which check, regenerated from the package on
+    this run: validateSymlinkTarget is called by ValidateDownloadMetadata
+    only (the model applies the resolved-target check to downloads only), it
+    looks at the final component only (Lstat says "not a link" -> accepted),
+    the four browse actions go through requirePath, and validatePath makes
+    its checks in the modelled order. *)
+Theorem C26_source_facts :
+  gen_symlink_target_callers = ["ValidateDownloadMetadata"] /\
+  gen_validate_path_callers = ["requirePath"; "validateCommon"; "validateSymlinkTarget"] /\
+  gen_require_path_callers = ["browseChmod"; "browseDelete"; "browseList"; "browseStat"] /\
+  gen_validate_path_check_order = true /\ gen_symlink_check_only_final_component = true.
+Proof. repeat split; reflexivity. Qed.
+Print Assumptions C26_source_facts.
